@@ -545,11 +545,21 @@ pub fn input_for(seed: u64, unit: u64, tier: Tier) -> Input {
     };
     let mut rng = Rng::new(mix(&[seed, 22, k]));
     if k % smith_every == smith_every - 1 {
-        let len = match rng.below(4) {
-            0 => rng.range(0, 16),
-            1 => rng.range(16, 200),
-            2 => rng.range(200, 1500),
-            _ => rng.range(1500, 6000),
+        // a few very long byte strings: some of apollo-smith's paths (interface extensions that
+        // add `implements` late, its topological-order fallback) need a lot of entropy to reach
+        let huge = match tier {
+            Tier::Quick => rng.chance(1, 50),
+            Tier::Thorough => rng.chance(1, 8),
+        };
+        let len = if huge {
+            rng.range(20_000, 120_000)
+        } else {
+            match rng.below(4) {
+                0 => rng.range(0, 16),
+                1 => rng.range(16, 200),
+                2 => rng.range(200, 1500),
+                _ => rng.range(1500, 6000),
+            }
         } as usize;
         let style = rng.below(3);
         let bytes: Vec<u8> = (0..len)
@@ -575,13 +585,20 @@ pub fn text_of(input: &Input) -> Result<Option<String>, String> {
     }
 }
 
+/// byte strings longer than this only go through the apollo-smith stages
+pub const HUGE_SMITH: usize = 8_000;
+
 pub fn bundle(input: &Input) -> Result<Vec<(&'static str, String)>, String> {
     match input {
         Input::Smith(bytes) => {
             let mut out = pipeline::smith_bundle(bytes);
+            if bytes.len() > HUGE_SMITH {
+                // the generated document is megabytes long: the smith stages only
+                return Ok(out);
+            }
             let text = out[0].1.clone();
             // and the generated document fed back through the compiler pipeline
-            for (k, v) in pipeline::full_bundle(&text) {
+            for (k, v) in pipeline::full_bundle_opts(&text, false) {
                 out.push((k, v));
             }
             Ok(out)
@@ -822,7 +839,12 @@ fn exec_case_here(case: &Case) -> Result<CaseResult, String> {
     match &case.input {
         Input::File(_) => add("input.corpus_file", 1),
         Input::Text(_) => add("input.amplified", 1),
-        Input::Smith(_) => add("input.smith_bytes", 1),
+        Input::Smith(b) => {
+            add("input.smith_bytes", 1);
+            if b.len() > HUGE_SMITH {
+                add("input.smith_bytes_huge", 1);
+            }
+        }
     }
     Ok(CaseResult {
         violation,
@@ -1087,9 +1109,19 @@ impl Property for C22 {
         });
         let input = input_for(seed, unit, tier);
         let mut tr = Rng::new(mix(&[seed, 2200, unit]));
+        let mut trials = gen_trials(&mut tr, n_trials(tier));
+        if matches!(&input, Input::Smith(b) if b.len() > HUGE_SMITH) {
+            // seconds per trial: baseline plus three trials, each on a fresh thread (apollo-smith's
+            // maps are std's, keyed per thread)
+            trials.truncate(4);
+            for t in trials.iter_mut().skip(1) {
+                t.thread = true;
+                t.history = None;
+            }
+        }
         let case = Case {
             input,
-            trials: gen_trials(&mut tr, n_trials(tier)),
+            trials,
             resample: 1,
         };
         let r = match exec_case(&case) {
